@@ -19,6 +19,7 @@ pub mod c14_pc;
 pub mod c15;
 pub mod c15_rtcp;
 pub mod c16;
+pub mod c17;
 pub mod c18;
 pub mod c19;
 pub mod c20;
@@ -40,6 +41,7 @@ pub const TABLE: &[(&str, fn(&mut Ctx))] = &[
     ("C14", c14::run),
     ("C15", c15::run),
     ("C16", c16::run),
+    ("C17", c17::run),
     ("C18", c18::run),
     ("C19", c19::run),
     ("C20", c20::run),
